@@ -28,7 +28,7 @@ PROPS = {
         assumptions=["pattern variables of current_op/3 calls are pairwise distinct (the model matches argument-wise)"],
     ),
     "C14": dict(
-        level_text="Proof (partial): the process-wide state shared by all interpreters (the atom table and the variable counter) is modelled in Lean as N clients issuing newAtom/atomName/newVar against one state, each operation one atomic step. For ALL schedules and any number of clients, kernel-checked: the table is a linearizable interning function (C14_atom_table_linearizable: injective, stable across clients and time, atomName(newAtom s)=s, ids only grow, table invariant); every client's view equals, up to an injective name-preserving renaming of atom ids and a strictly monotone renaming of variable numbers, what it would see running ALONE (C14_view_as_alone, by simulation); variables are fresh, increasing and never shared (C14_var_supply); identity, standard order and canonical answers of id-level terms are invariant under exactly such renamings (C14_id_parametric), hence other interpreters cannot change an interpreter's answers (C14_answers_unchanged). C14_nonatomic_witness shows the result fails when NewAtom is not atomic. That the operations ARE atomic and that no other package-level mutable state exists are facts regenerated from the source with go/types on every run and tied by decide (C14_facts_atom_table_locked, C14_facts_var_counter_atomic, C14_facts_no_other_shared_state). Absence of data races under the Go memory model is not a theorem: it is OBSERVED by running the real code under the Go race detector (streams c14.table, c14.race; schedules sampled, not enumerated), and isolation of the per-interpreter state is checked on all pairs (state-changing directive, observer) in c14.isolation.",
+        level_text="Proof (partial): the process-wide state shared by all interpreters (the atom table and the variable counter) is modelled in Lean as N clients issuing newAtom/atomName/newVar against one state, each operation one atomic step. For ALL schedules and any number of clients, kernel-checked: the table is a linearizable interning function (C14_atom_table_linearizable: injective, stable across clients and time, atomName(newAtom s)=s, ids only grow, table invariant); every client's view equals, up to an injective name-preserving renaming of atom ids and a strictly monotone renaming of variable numbers, what it would see running ALONE (C14_view_as_alone, by simulation); variables are fresh, increasing and never shared (C14_var_supply); identity, standard order, canonical answers (C14_id_parametric) and unification (C14_unify_parametric) of id-level terms are invariant under exactly such renamings, hence other interpreters cannot change an interpreter's answers (C14_answers_unchanged). C14_nonatomic_witness shows the result fails when NewAtom is not atomic. That the operations ARE atomic and that no other package-level mutable state exists are facts regenerated from the source with go/types on every run and tied by decide (C14_facts_atom_table_locked, C14_facts_var_counter_atomic, C14_facts_no_other_shared_state). Absence of data races under the Go memory model is not a theorem: it is OBSERVED by running the real code under the Go race detector (streams c14.table, c14.race; schedules sampled, not enumerated), and isolation of the per-interpreter state is checked on all pairs (state-changing directive, observer) in c14.isolation.",
         level_note="Partial: race freedom itself is a runtime property of the Go memory model and is observed with `go build -race` on sampled schedules (2..8 goroutines, randomized GOMAXPROCS and Gosched injection), not proved. Trusted: Lean kernel; the hand-written model of NewAtom/Atom.String/NewVariable (correspondence-checked by c14.table, sequential interleavings exactly, parallel runs through schedule-independent views plus an independent linearizability checker); extract/shared.go (lock-discipline and package-variable facts are syntactic: aliasing through pointers is not tracked); the Go race detector; sync.RWMutex and sync/atomic behave as documented. Interpreters exchanging terms through the host program, halt/0 (terminates the process) and the file system are outside the property.",
         technique="Lean 4 linearizability + simulation proof over all schedules, id-parametricity of the layers above, regenerated lock-discipline facts (go/types) tied by decide, model/implementation correspondence and whole-interpreter differential runs under the Go race detector",
         lean_module="PrologVerif.Properties.C14",
